@@ -59,7 +59,8 @@ CONSTANTS Comp,      \* which component the behaviours exercise
                      \* allowed outcomes never depend on it): "pool" - a single goroutine without garbage collection
                      \* finds in a sync.Pool what it put there, so take a pooled value when one is believed to be
                      \* there and construct only otherwise; "putback" / "drop" - what Map.Get was observed to do
-                     \* with the default it fetched for a key that is present (AO-3, probed by `vh-adt probe`)
+                     \* with the default it fetched for a key that is present (AO-3, probed by `vh-adt probe`);
+                     \* "nilpooled" - Put of a nil pointer was observed to enter the pool (AO-5, probed)
 
 V0 == V \cup {0}
 B(b) == IF b THEN "true" ELSE "false"
@@ -181,7 +182,9 @@ Hooked(o, id, h) == IF id > 100 /\ h \in {"h1", "h2"} THEN [o EXCEPT ![id - 100]
 HookEv(p, id) == IF p.hook \in {"h1", "h2"} THEN <<"hook:" \o S(id)>> ELSE <<>>
 
 \* Pool.Put(id): "returns an object in the pool, calling the cleanuphook"
-PutOb(p, o, id) == <<[p EXCEPT !.may = @ \cup {id}, !.sure = @ \cup {id}], Hooked(o, id, p.hook)>>
+\* (whether a nil pointer really enters the sync.Pool is an observed choice, AO-5: Prefer has "nilpooled" if it does)
+PutOb(p, o, id) == <<[p EXCEPT !.may = @ \cup {id}, !.sure = IF id = 0 /\ "nilpooled" \notin Prefer THEN @ ELSE @ \cup {id}],
+                     Hooked(o, id, p.hook)>>
 
 \* What Pool.Get() may produce - sync.Pool: any value Put before, or a new one from the constructor.  `may` is an
 \* over-approximation of the pool's content (sync.Pool may drop anything at any time); `sure` is what the pool is
@@ -275,7 +278,8 @@ MapStep ==
           \* amb: which pooled object Make() armed is not visible when the key is present; with two or more candidates
           \* the replay of this behaviour stops after this step (a later gc would need to know)
           /\ RecM([op |-> "ensure", k |-> k, present |-> B(k \in Dom), crash |-> "yes",
-                   amb |-> B(k \in Dom /\ Cardinality({x \in Takes(pl, ob) : x.via # "new"}) >= 2),
+                   amb |-> B(k \in Dom /\ Cardinality({x \in Takes(pl, ob) : x.via # "new"}) >= 2
+                                          /\ \E x \in Takes(pl, ob) : x.via # "new" /\ x.id > 100),
                    ev |-> t.ev, evs |-> {x.ev : x \in Takes(pl, ob)},
                    allow |-> IF k \in Dom THEN {Desc(ob, mp[k])} ELSE AllowOf(Takes(pl, ob)),
                    pick |-> Desc(ob', mp'[k])], "-")
